@@ -86,3 +86,78 @@ Theorem C19_commands_example :
     assoc "f" e = Some (VObj (den_fld f)).
 Proof. exact commands_example. Qed.
 Print Assumptions C19_commands_example.
+
+(* ---- Data.__str__ (deepening pass) ---- *)
+
+(* str() of a Data object performs up to three element look-ups (first, last,
+   second), each a partial operation, and up to three date-time conversions,
+   each of which may raise.  For EVERY shape (any number of dimensions, sizes
+   0, 1, 2, 3, more), any units (unset, string, not a string), any calendar and
+   any array of elements: the look-ups the code performs are defined, and when
+   each conversion site catches what the conversion raises the text is
+   produced. *)
+Theorem C19_data_str_total :
+  forall k d, wf_ddata d = true -> conversions_caught k d = true -> exists t, data_str k d = Ok t.
+Proof. exact data_str_total. Qed.
+Print Assumptions C19_data_str_total.
+
+(* The repaired code (except Exception at the three sites) has no guard left. *)
+Theorem C19_data_str_total_repaired :
+  forall d, wf_ddata d = true -> exists t, data_str k_repaired d = Ok t.
+Proof. exact data_str_total_repaired. Qed.
+Print Assumptions C19_data_str_total_repaired.
+
+(* Data that are not reference times never reach a conversion. *)
+Theorem C19_data_str_total_plain :
+  forall k d, wf_ddata d = true -> is_reftime (dd_units d) = false -> exists t, data_str k d = Ok t.
+Proof. exact data_str_total_plain. Qed.
+Print Assumptions C19_data_str_total_plain.
+
+(* Non-vacuity, and the layout for sizes 0, 1, 2, 3 (row and column), 4, a
+   masked element, an unconvertible middle reference time, no array. *)
+Theorem C19_data_str_examples :
+  let plain sh els := mkDD true (UStr "K") None sh els (COk "") (COk ("", "")) (COk "") in
+  data_str k_repaired (plain [0%nat] []) = Ok " K" /\
+  data_str k_repaired (plain [] [EVal "9"]) = Ok "9 K" /\
+  data_str k_repaired (plain [2%nat] [EVal "1"; EMasked]) = Ok "[1, --] K" /\
+  data_str k_repaired (plain [1%nat; 3%nat] [EVal "1"; EVal "2"; EVal "3"]) = Ok "[[1, 2, 3]] K" /\
+  data_str k_repaired (plain [3%nat; 1%nat] [EVal "1"; EVal "2"; EVal "3"]) = Ok "[[1, ..., 3]] K" /\
+  data_str k_repaired (plain [2%nat; 2%nat] [EVal "1"; EVal "2"; EVal "3"; EVal "4"]) = Ok "[[1, ..., 4]] K" /\
+  data_str k_repaired (mkDD true (UStr "days since 2000-01-01") (Some "noleap") [3%nat]
+                            [EVal "1.0"; EVal "1e+20"; EVal "3.0"]
+                            (COk "a") (COk ("a", "c")) (CErr XOverflow)) = Ok "[a, ??, c] noleap" /\
+  data_str k_repaired (mkDD false UOther (Some "x") [] [] (COk "") (COk ("", "")) (COk "")) = Ok " ?? x".
+Proof. exact data_str_examples. Qed.
+Print Assumptions C19_data_str_examples.
+
+(* The descriptions of a field or domain INCLUDING every Data object they
+   format (field data, data and bounds data of every construct) are total on
+   the weak invariant plus "every array holds as many elements as its shape". *)
+Theorem C19_describe_all_total :
+  forall s, inv_full s = true -> exists d, describe_all true k_repaired s = Ok d.
+Proof. exact describe_all_total. Qed.
+Print Assumptions C19_describe_all_total.
+
+(* ---- order of the cell methods (deepening pass) ---- *)
+
+(* The constructs inserted without a key (cell methods, coordinate references)
+   come back as the SAME LIST, in the same order. *)
+Theorem C19_commands_preserve_order :
+  forall x dn f cs, compile_fld true x dn f = Ok cs -> wf_fld f = true ->
+  exists e o, run cs [] = Some e /\ assoc x e = Some (VObj o) /\
+    filter unkeyed_entry (o_items o) = map den_item (filter unkeyed_item (f_items f)).
+Proof. exact commands_preserve_order. Qed.
+Print Assumptions C19_commands_preserve_order.
+
+(* For cell methods held in application order under ANY keys (explicit keys out
+   of order, eleven or more automatic keys): the rebuilt field holds exactly
+   those cell methods in application order - list equality. *)
+Theorem C19_commands_cell_methods_in_order :
+  forall x dn fv mid keyed cms post cs,
+  forallb (fun it => negb (unkeyed_item it)) keyed = true ->
+  let f := mkF fv mid (keyed ++ cm_items cms) post in
+  compile_fld true x dn f = Ok cs -> wf_fld f = true ->
+  exists e o, run cs [] = Some e /\ assoc x e = Some (VObj o) /\
+    filter unkeyed_entry (o_items o) = map (fun kc => (den_acon (snd kc), None, None)) cms.
+Proof. exact commands_cell_methods_in_order. Qed.
+Print Assumptions C19_commands_cell_methods_in_order.
